@@ -382,7 +382,7 @@ pub fn fuzz_one(src: &str) {
 /// Thorough tier only: a coverage-guided libFuzzer campaign on the target /verif/fuzz `totality`
 /// (oracle = `fuzz_one`), seeded with generated inputs. Artifacts are confirmed by replaying them
 /// in a child process before they count.
-fn run_fuzz_campaign(env: &Env, known: &Known, rr: &mut RunResult) {
+pub fn run_fuzz_campaign(env: &Env, known: &Known, rr: &mut RunResult) {
     use std::process::Command;
     let tdir = Path::new(VERIF_DIR).join("target/fuzz");
     let built = Command::new("cargo")
@@ -449,7 +449,7 @@ fn run_fuzz_campaign(env: &Env, known: &Known, rr: &mut RunResult) {
     let _ = out;
     rr.stats.counters.insert("fuzz_executions".into(), execs);
     rr.stats.counters.insert("fuzz_edge_coverage".into(), cov);
-    rr.stats.counters.insert("fuzz_seed_corpus_files".into(), std::fs::read_dir(&corpus).map(|d| d.count() as u64).unwrap_or(0));
+    rr.stats.counters.insert("fuzz_corpus_files_at_end".into(), std::fs::read_dir(&corpus).map(|d| d.count() as u64).unwrap_or(0));
     rr.stats.evaluations += execs;
     // artifacts: confirm each by replay in a child process
     let mut n_art = 0u64;
